@@ -90,9 +90,15 @@ void PSC::BuiltinFnSETDATE::run(PSC::Context &ctx) {
     PSC::Variable *yearVar = ctx.getVariable("Year");
     if (yearVar == nullptr || yearVar->type != PSC::DataType::INTEGER) std::abort();
 
-    day day(dayVar->get<PSC::Integer>().value);
-    month month(monthVar->get<PSC::Integer>().value);
-    year year(yearVar->get<PSC::Integer>().value);
+    PSC::int_t d = dayVar->get<PSC::Integer>().value;
+    PSC::int_t m = monthVar->get<PSC::Integer>().value;
+    PSC::int_t y = yearVar->get<PSC::Integer>().value;
+    if (d < 1 || d > 31 || m < 1 || m > 12 || y < -32767 || y > 32767)
+        throw PSC::RuntimeError(PSC::errToken, ctx, "Invalid Date!");
+
+    day day((unsigned) d);
+    month month((unsigned) m);
+    year year((int) y);
 
     year_month_day ymd(year, month, day);
     if (!ymd.ok())
